@@ -287,6 +287,8 @@ type c19Gen struct {
 	r       *vk.Rng
 	tfDenom string
 	nextPos []uint64
+	// forceKind makes the first transaction of the next random block one of a given kind (scheduled events)
+	forceKind int
 }
 
 func (g *c19Gen) acc(i int) chain.Account { return g.ch.Accs[i%len(g.ch.Accs)] }
@@ -330,8 +332,8 @@ func (g *c19Gen) setupBlock(b int) ([][]byte, []string) {
 	case 2:
 		for i := 0; i < 4; i++ {
 			du := []time.Duration{time.Hour, 3 * time.Hour, 7 * time.Hour}[i%3]
-			add(g.acc(i+4), "lock shares", &lockuptypes.MsgLockTokens{Owner: g.acc(i + 4).Addr.String(), Duration: du, Coins: sdk.NewCoins(sdk.NewCoin("gamm/pool/1", gammtypes.OneShare.MulRaw(int64(1+i))))})
-			add(g.acc(i+4), "lock shares 2", &lockuptypes.MsgLockTokens{Owner: g.acc(i + 4).Addr.String(), Duration: 7 * time.Hour, Coins: sdk.NewCoins(sdk.NewCoin("gamm/pool/1", gammtypes.OneShare.QuoRaw(int64(2+i))))})
+			add(g.acc(i+4), "lock shares", &lockuptypes.MsgLockTokens{Owner: g.acc(i + 4).Addr.String(), Duration: du + time.Duration(i)*time.Minute, Coins: sdk.NewCoins(sdk.NewCoin("gamm/pool/1", gammtypes.OneShare.MulRaw(int64(1+i))))})
+			add(g.acc(i+4), "lock shares 2", &lockuptypes.MsgLockTokens{Owner: g.acc(i + 4).Addr.String(), Duration: 7*time.Hour + time.Duration(7*i)*time.Second, Coins: sdk.NewCoins(sdk.NewCoin("gamm/pool/1", gammtypes.OneShare.QuoRaw(int64(2+i))))})
 		}
 		add(g.acc(0), "gauge", &incentivestypes.MsgCreateGauge{IsPerpetual: false, Owner: g.acc(0).Addr.String(), DistributeTo: lockuptypes.QueryCondition{LockQueryType: lockuptypes.ByDuration, Denom: "gamm/pool/1", Duration: time.Hour}, Coins: sdk.NewCoins(c("uosmo", 7000000000)), StartTime: ch.Ctx.BlockTime(), NumEpochsPaidOver: 5})
 		add(g.acc(1), "gauge perpetual", &incentivestypes.MsgCreateGauge{IsPerpetual: true, Owner: g.acc(1).Addr.String(), DistributeTo: lockuptypes.QueryCondition{LockQueryType: lockuptypes.ByDuration, Denom: "gamm/pool/1", Duration: 3 * time.Hour}, Coins: sdk.NewCoins(c("uosmo", 3000000011)), StartTime: ch.Ctx.BlockTime(), NumEpochsPaidOver: 1})
@@ -357,6 +359,9 @@ func (g *c19Gen) randomBlock() ([][]byte, []string) {
 	used := map[int]bool{}
 	c := func(d string, n int64) sdk.Coin { return sdk.NewCoin(d, sdkmath.NewInt(n)) }
 	n := r.Intn(6)
+	if g.forceKind != 0 && n == 0 {
+		n = 1
+	}
 	for k := 0; k < n; k++ {
 		ai := r.Intn(len(ch.Accs))
 		if used[ai] {
@@ -369,6 +374,9 @@ func (g *c19Gen) randomBlock() ([][]byte, []string) {
 		kind := r.Intn(19)
 		if r.Intn(5) < 2 {
 			kind = 19 + r.Intn(15)
+		}
+		if g.forceKind != 0 && k == 0 {
+			kind = g.forceKind
 		}
 		switch kind {
 		case 19: // validator-set preference
@@ -520,10 +528,14 @@ func (g *c19Gen) randomBlock() ([][]byte, []string) {
 			txs = append(txs, g.sign(a, &bm, bad))
 			ds = append(ds, "create-pool then fail")
 			continue
-		case 33: // a new pool of a random type
-			switch r.Intn(3) {
+		case 33: // a new pool of a random type (the scheduled one is concentrated: another pool module than the failed creation's)
+			pt := r.Intn(3)
+			if g.forceKind == 33 {
+				pt = 0
+			}
+			switch pt {
 			case 0:
-				cm := clmodel.NewMsgCreateConcentratedPool(a.Addr, []string{"baz", "foo", "bar"}[r.Intn(3)], "uosmo", []uint64{1, 10, 100, 1000}[r.Intn(4)], osmomath.MustNewDecFromStr([]string{"0.0001", "0.0005", "0.003", "0.01"}[r.Intn(4)]))
+				cm := clmodel.NewMsgCreateConcentratedPool(a.Addr, []string{"baz", "foo", "bar"}[r.Intn(3)], "uosmo", []uint64{1, 10, 100, 1000}[r.Intn(4)], osmomath.MustNewDecFromStr([]string{"0.0001", "0.0005", "0.003", "0.001"}[r.Intn(4)]))
 				msg, d = &cm, "create-pool cl"
 			case 1:
 				sm := stableswap.NewMsgCreateStableswapPool(a.Addr, stableswap.PoolParams{SwapFee: osmomath.MustNewDecFromStr("0.002"), ExitFee: osmomath.ZeroDec()}, sdk.NewCoins(c("baz", 1000000+r.I64n(9000000)), c("bar", 1000000+r.I64n(9000000))), []uint64{1, 1}, "")
@@ -732,7 +744,17 @@ func c19RunRole(c *vk.Ctx) bool {
 			if b < 4 {
 				txs, ds = g.setupBlock(b)
 			} else {
+				// every history has a pool creation that fails as a whole and, after at least one export point, the
+				// creation of a pool of another type (which is handed the same pool id)
+				g.forceKind = 0
+				if b == 9 {
+					g.forceKind = 32
+				}
+				if b == 12+exportEvery && b < nBlocks-4 {
+					g.forceKind = 33
+				}
 				txs, ds = g.randomBlock()
+				g.forceKind = 0
 			}
 			dt := 5 * time.Second
 			switch g.r.Intn(9) {
